@@ -12,7 +12,7 @@ From Coq Require Import List NArith Arith Lia Bool Permutation Sorting.Sorted.
 From XmlRs Require Import Base.CPred Spec.XmlChars Spec.XmlWF Spec.Infoset Proofs.XmlWFRender Proofs.XmlWFSyntaxRenderNode
   Proofs.XmlWFSyntaxRenderCheck Proofs.XmlWFSyntaxRenderDoc Proofs.XmlWFSyntaxRenderDtd Proofs.XmlWFSyntaxRenderDtdElem
   Proofs.XmlWFSyntaxRenderDtdDoc Proofs.XmlWFSyntaxRenderDtdCheck Proofs.XmlWFSyntaxRenderDtdWf Proofs.XmlWFSyntaxRenderTokens.
-From XmlRs Require Proofs.XmlWFSyntaxCheck Proofs.XmlWFSyntaxConvCheck Proofs.XmlWFSyntaxConvDtdDoc Proofs.DomViewBase.
+From XmlRs Require Proofs.XmlWFSyntaxCheck Proofs.XmlWFSyntaxConvCheck Proofs.XmlWFSyntaxConvDtdDoc Proofs.DomViewBase Proofs.DomViewElem.
 Import ListNotations.
 Local Open Scope nat_scope.
 
@@ -45,7 +45,8 @@ Hypothesis Hstd : std_predef en.
 Let f := S (S f').
 
 Lemma predef_expand_tok2 nm ch : predef_name ch = Some nm ->
-  exists its, expand f en [] (XEntRef nm) = inr (XExp nm its) /\ forall sub st acc, B.items_tokens2 f en sub its st acc = ([], (true, ch :: acc)).
+  exists its, expand f en [] (XEntRef nm) = inr (XExp nm its) /\ (forall sub st acc, B.items_tokens2 f en sub its st acc = ([], (true, ch :: acc)))
+    /\ forall ok, forallb (Proofs.DomViewElem.tree_good ok) its = true.
 Proof.
   intros Hn. unfold predef_name in Hn.
   assert (Hcases : (ch = c_lt /\ nm = s_lt) \/ (ch = c_gt /\ nm = s_gt) \/ (ch = c_amp /\ nm = s_amp)
@@ -57,19 +58,19 @@ Proof.
     destruct (N.eqb_spec ch c_quot); [injection Hn as <-; auto 6|discriminate]. }
   clear Hn. unfold f. generalize (S f') as g. intros g.
   destruct Hcases as [[-> ->]|[[-> ->]|[[-> ->]|[[-> ->]|[-> ->]]]]].
-  - exists [XCharRef 60%N]. split; [|intros; reflexivity]. cbn [expand mem existsb].
+  - exists [XCharRef 60%N]. split; [|split; intros; reflexivity]. cbn [expand mem existsb].
     rewrite (Hstd s_lt [38;35;54;48;59]%N) by (cbn; auto). cbv beta iota. change (p_content _ _) with (Some ([XCharRef 60%N], @nil char)). cbv iota.
     cbn [mapM]. rewrite expand_leaf by exact I. reflexivity.
-  - exists [XChar 62%N]. split; [|intros; reflexivity]. cbn [expand mem existsb].
+  - exists [XChar 62%N]. split; [|split; intros; reflexivity]. cbn [expand mem existsb].
     rewrite (Hstd s_gt [62]%N) by (cbn; auto). cbv beta iota. change (p_content _ _) with (Some ([XChar 62%N], @nil char)). cbv iota.
     cbn [mapM]. rewrite expand_leaf by exact I. reflexivity.
-  - exists [XCharRef 38%N]. split; [|intros; reflexivity]. cbn [expand mem existsb].
+  - exists [XCharRef 38%N]. split; [|split; intros; reflexivity]. cbn [expand mem existsb].
     rewrite (Hstd s_amp [38;35;51;56;59]%N) by (cbn; auto). cbv beta iota. change (p_content _ _) with (Some ([XCharRef 38%N], @nil char)). cbv iota.
     cbn [mapM]. rewrite expand_leaf by exact I. reflexivity.
-  - exists [XChar 39%N]. split; [|intros; reflexivity]. cbn [expand mem existsb].
+  - exists [XChar 39%N]. split; [|split; intros; reflexivity]. cbn [expand mem existsb].
     rewrite (Hstd s_apos [39]%N) by (cbn; auto 6). cbv beta iota. change (p_content _ _) with (Some ([XChar 39%N], @nil char)). cbv iota.
     cbn [mapM]. rewrite expand_leaf by exact I. reflexivity.
-  - exists [XChar 34%N]. split; [|intros; reflexivity]. cbn [expand mem existsb].
+  - exists [XChar 34%N]. split; [|split; intros; reflexivity]. cbn [expand mem existsb].
     rewrite (Hstd s_quot [34]%N) by (cbn; auto 6). cbv beta iota. change (p_content _ _) with (Some ([XChar 34%N], @nil char)). cbv iota.
     cbn [mapM]. rewrite expand_leaf by exact I. reflexivity.
 Qed.
@@ -88,7 +89,7 @@ Proof.
       rewrite <- app_assoc. cbn [app]. destruct items; reflexivity.
     + rewrite expand_leaf in Ey by exact I. injection Ey as <-. cbn [B.item_tokens2 chars_of fst snd]. rw (IH ys true (rev s ++ acc) Eys). cbn [app].
       rewrite rev_app_distr, <- app_assoc. destruct items; reflexivity.
-    + destruct (predef_expand_tok2 nm ch Hn) as (its & E1 & E2). rewrite E1 in Ey. injection Ey as <-. rewrite B.item_tokens2_exp, E2. cbn [fst snd].
+    + destruct (predef_expand_tok2 nm ch Hn) as (its & E1 & E2 & _). rewrite E1 in Ey. injection Ey as <-. rewrite B.item_tokens2_exp, E2. cbn [fst snd].
       rw (IH ys true (ch :: acc) Eys). cbn [chars_of app]. rewrite (predef_char_name _ _ Hn). cbn [app rev]. rewrite <- app_assoc. cbn [app]. destruct items; reflexivity.
 Qed.
 
